@@ -8,14 +8,21 @@
 #include <vector>
 
 #include <etl/algorithm.hpp>
+#include <etl/iterator.hpp>
 #include <etl/numeric.hpp>
+#include <etl/vector.hpp>
 
 using namespace vh;
 using V = std::vector<int>;
 
 static int keyof(int v) { return v >= 0 ? v / 16 : -((-v + 15) / 16); }   // floor division
+// every range sits between guard cells: a functor that is ever handed a guard value was applied to something
+// outside the range -> the impl leg ends in the token `oob`
+static bool g_oob = false;
+static inline void seen(int v) { if (v == -777777 || v == -888888) { g_oob = true; } }
 static bool pred_of(int id, int v)
 {
+    seen(v);
     switch (id) {
     case 0: return (keyof(v) % 2) == 0;
     case 1: return keyof(v) == 1;
@@ -27,35 +34,46 @@ static bool pred_of(int id, int v)
 static int mod3(int k) { return ((k % 3) + 3) % 3; }
 static bool cmp_of(int id, int a, int b)
 {
+    seen(a); seen(b);
     switch (id) {
     case 0: return keyof(a) < keyof(b);
     case 1: return keyof(b) < keyof(a);
+    case 3: return a < b;   // the comparator of the overloads WITHOUT a comparator argument (etl::less)
     default: return mod3(keyof(a)) < mod3(keyof(b));
     }
 }
 static bool eqv_of(int id, int a, int b)
 {
+    seen(a); seen(b);
     switch (id) {
     case 0: return keyof(a) == keyof(b);
     case 1: return a == b;
     default: return mod3(keyof(a)) == mod3(keyof(b));
     }
 }
-static int fun1_of(int id, int a) { return id == 0 ? a + 16 : 2 * a; }
-static int fun2_of(int id, int a, int b) { return id == 0 ? a + b : a - b; }
+static int fun1_of(int id, int a) { seen(a); return id == 0 ? a + 16 : 2 * a; }
+static int fun2_of(int id, int a, int b) { seen(a); seen(b); return id == 0 ? a + b : a - b; }
 
 static V tov(std::vector<i64> const& l) { return V(l.begin(), l.end()); }
-static constexpr int GUARD = -777777;
+static constexpr int GUARD  = -777777;
+static constexpr int SGUARD = -888888;   // guard cells of SOURCE ranges: an over-read shows up in the destination
 
 // exact-size heap array with guard cells on both sides
 struct Buf {
     V store;
     std::size_t n;
-    explicit Buf(V const& v) : store(v.size() + 2, GUARD), n(v.size()) { std::copy(v.begin(), v.end(), store.begin() + 1); }
+    int g = GUARD;
+    explicit Buf(V const& v, int guard = GUARD) : store(v.size() + 2, guard), n(v.size()), g(guard) { std::copy(v.begin(), v.end(), store.begin() + 1); }
     explicit Buf(std::size_t len) : store(len + 2, GUARD), n(len) { }
     int* b() { return store.data() + 1; }
     int* e() { return store.data() + 1 + n; }
-    bool guards_ok() const { return store.front() == GUARD && store.back() == GUARD; }
+    bool guards_ok() const { return store.front() == g && store.back() == g; }
+    // a destination buffer starts as all-GUARD: nothing behind position r may have been written
+    bool tail_untouched(std::ptrdiff_t r) const
+    {
+        for (std::size_t i = 1 + static_cast<std::size_t>(r < 0 ? 0 : r); i < 1 + n; ++i) { if (store[i] != GUARD) { return false; } }
+        return true;
+    }
     V vec() const { return V(store.begin() + 1, store.begin() + 1 + static_cast<std::ptrdiff_t>(n)); }
 };
 
@@ -69,8 +87,99 @@ static void guard_tok(Out& o, Buf const& b) { if (!b.guards_ok()) { o.tok("GUARD
 
 static bool is_perm(V a, V b) { std::sort(a.begin(), a.end()); std::sort(b.begin(), b.end()); return a == b; }
 
-bool vh::run_case(std::string const& op, Toks& in, Out& impl, Out& ref)
+// ---- iterator flavours of the copying family: op suffix "_s<k>d<k>" --------------------------------------
+//   source k: 0 pointer, 1 input wrapper, 2 forward wrapper, 3 bidirectional wrapper
+//   dest   k: 0 pointer, 1 output-iterator wrapper (write-only proxy), 2 etl::back_insert_iterator into a
+//             static_vector, 3 forward/bidirectional wrapper (for algorithms that read or decrement the destination)
+using InIt = WrapIt<int, etl::input_iterator_tag>;
+struct OutW {
+    using iterator_category = etl::output_iterator_tag;
+    using value_type        = void;
+    using difference_type   = etl::ptrdiff_t;
+    using pointer           = void;
+    using reference         = void;
+    int* p{nullptr};
+    struct Proxy {
+        int* q;
+        void operator=(int v) const { *q = v; }
+    };
+    auto operator*() const -> Proxy { return Proxy{p}; }
+    auto operator++() -> OutW& { ++p; return *this; }
+    auto operator++(int) -> OutW { auto t = *this; ++p; return t; }
+};
+using SVec = etl::static_vector<int, 64>;
+
+static bool split_flavour(std::string& op, int& sk, int& dk)
 {
+    auto n = op.size();
+    sk = dk = 0;
+    if (n > 5 && op[n - 5] == '_' && op[n - 4] == 's' && op[n - 2] == 'd' && op[n - 3] >= '0' && op[n - 3] <= '3' && op[n - 1] >= '0'
+        && op[n - 1] <= '3') {
+        sk = op[n - 3] - '0';
+        dk = op[n - 1] - '0';
+        op.resize(n - 5);
+        return true;
+    }
+    return false;
+}
+static bool strip_suffix(std::string& op, char const* suf)
+{
+    std::string s = suf;
+    if (op.size() > s.size() && op.compare(op.size() - s.size(), s.size(), s) == 0) { op.resize(op.size() - s.size()); return true; }
+    return false;
+}
+
+// M = bit mask of the source kinds the algorithm compiles with; f(first, last) must not return a source iterator
+template <unsigned M, typename F>
+static auto with_src(int sk, int* b, int* e, F f)
+{
+    if constexpr ((M & 2U) != 0) { if (sk == 1) { return f(InIt(b), InIt(e)); } }
+    if constexpr ((M & 4U) != 0) { if (sk == 2) { return f(FwdIt<int>(b), FwdIt<int>(e)); } }
+    if constexpr ((M & 8U) != 0) { if (sk == 3) { return f(BidiIt<int>(b), BidiIt<int>(e)); } }
+    return f(b, e);
+}
+
+static void emit_dest(Out& o, Buf& d, std::ptrdiff_t r)
+{
+    o.tok("ok"); put_prefix(o, d.b(), r); guard_tok(o, d);
+    if (!d.tail_untouched(r)) { o.tok("WROTE-PAST-RETURN"); }
+}
+
+// f(dest) returns the destination iterator behind the last element written
+template <unsigned M, typename F>
+static void with_dest(int dk, Out& o, std::size_t cap, F f)
+{
+    if constexpr ((M & 4U) != 0) {
+        if (dk == 2) {
+            SVec vec;
+            (void)f(etl::back_inserter(vec));
+            o.tok("ok"); o.num(static_cast<i64>(vec.size()));
+            for (auto x : vec) { o.num(x); }
+            return;
+        }
+    }
+    Buf d(cap);
+    if constexpr ((M & 2U) != 0) { if (dk == 1) { auto r = f(OutW{d.b()}).p - d.b(); emit_dest(o, d, r); return; } }
+    if constexpr ((M & 8U) != 0) { if (dk == 3) { auto r = f(FwdIt<int>(d.b())).p - d.b(); emit_dest(o, d, r); return; } }
+    auto r = f(d.b()) - d.b();
+    emit_dest(o, d, r);
+}
+static void src_tok(Out& o, Buf const& s, V const& v) { if (s.vec() != v || !s.guards_ok()) { o.tok("SOURCE-MODIFIED"); } }
+
+static bool run_case_inner(std::string const& op_in, Toks& in, Out& impl, Out& ref);
+bool vh::run_case(std::string const& op_in, Toks& in, Out& impl, Out& ref)
+{
+    g_oob = false;
+    bool r = run_case_inner(op_in, in, impl, ref);
+    if (g_oob && !impl.empty() && impl.s != "contract") { impl.tok("oob"); }
+    return r;
+}
+static bool run_case_inner(std::string const& op_in, Toks& in, Out& impl, Out& ref)
+{
+    std::string op = op_in;
+    int sk = 0;
+    int dk = 0;
+    split_flavour(op, sk, dk);
     // ------------------------------------------------------------------ rotate
     if (op == "rotate" || op == "rotate_fwd") {
         auto f = in.num(); auto m = in.num(); auto n = in.num();
@@ -231,18 +340,29 @@ bool vh::run_case(std::string const& op, Toks& in, Out& impl, Out& ref)
         V v = tov(in.list());
         Buf a(v);
         auto c = [&](int x, int y) { return cmp_of(id, x, y); };
-        guarded(impl, [&](Out& o) { etl::inplace_merge(a.b(), a.b() + mid, a.e(), c); o.tok("ok"); put(o, a.vec()); guard_tok(o, a); });
+        guarded(impl, [&](Out& o) {
+            if (id == 3) { etl::inplace_merge(a.b(), a.b() + mid, a.e()); } else { etl::inplace_merge(a.b(), a.b() + mid, a.e(), c); }
+            o.tok("ok"); put(o, a.vec()); guard_tok(o, a);
+        });
         V s = v; std::inplace_merge(s.begin(), s.begin() + mid, s.end(), c);
         ref.tok("ok"); put(ref, s);
         return true;
     }
     {
+        // <sort>[_rev|_bidi][_full] <cid> [k] <list>
+        //   _rev : the algorithm runs on etl::reverse_iterator<int*> over the array; all legs show the REVERSED view
+        //   _bidi: bidirectional wrapper (gnome_sort only needs ++/--)
+        //   cid 3: the overload WITHOUT a comparator is called (etl::less)
         static char const* sorts[] = {"sort", "stable_sort", "insertion_sort", "gnome_sort", "bubble_sort", "exchange_sort", "merge_sort",
             "nth_element", "partial_sort"};
+        std::string base = op;
+        bool full = strip_suffix(base, "_full");
+        bool rev  = strip_suffix(base, "_rev");
+        bool bidi = !rev && strip_suffix(base, "_bidi");
         for (auto* name : sorts) {
             std::string nm = name;
-            bool full = op == nm + "_full";
-            if (op != nm && !full) { continue; }
+            if (base != nm) { continue; }
+            if (bidi && nm != "gnome_sort") { return false; }
             auto id = static_cast<int>(in.num());
             i64 k = 0;
             if (nm == "nth_element" || nm == "partial_sort") { k = in.num(); }
@@ -250,33 +370,49 @@ bool vh::run_case(std::string const& op, Toks& in, Out& impl, Out& ref)
             Buf a(v);
             auto c = [&](int x, int y) { return cmp_of(id, x, y); };
             bool stable = nm == "stable_sort";
+            bool dflt = id == 3;
+            auto call = [&](auto b, auto e) {
+                if (nm == "gnome_sort") { if (dflt) { etl::gnome_sort(b, e); } else { etl::gnome_sort(b, e, c); } return; }
+                if constexpr (requires { b + 1; }) {
+                    if (nm == "sort") { if (dflt) { etl::sort(b, e); } else { etl::sort(b, e, c); } }
+                    else if (nm == "stable_sort") { if (dflt) { etl::stable_sort(b, e); } else { etl::stable_sort(b, e, c); } }
+                    else if (nm == "insertion_sort") { if (dflt) { etl::insertion_sort(b, e); } else { etl::insertion_sort(b, e, c); } }
+                    else if (nm == "bubble_sort") { if (dflt) { etl::bubble_sort(b, e); } else { etl::bubble_sort(b, e, c); } }
+                    else if (nm == "exchange_sort") { if (dflt) { etl::exchange_sort(b, e); } else { etl::exchange_sort(b, e, c); } }
+                    else if (nm == "merge_sort") { if (dflt) { etl::merge_sort(b, e); } else { etl::merge_sort(b, e, c); } }
+                    else if (nm == "nth_element") { if (dflt) { etl::nth_element(b, b + k, e); } else { etl::nth_element(b, b + k, e, c); } }
+                    else { if (dflt) { etl::partial_sort(b, b + k, e); } else { etl::partial_sort(b, b + k, e, c); } }
+                }
+            };
             guarded(impl, [&](Out& o) {
-                if (nm == "sort") { etl::sort(a.b(), a.e(), c); }
-                else if (nm == "stable_sort") { etl::stable_sort(a.b(), a.e(), c); }
-                else if (nm == "insertion_sort") { etl::insertion_sort(a.b(), a.e(), c); }
-                else if (nm == "gnome_sort") { etl::gnome_sort(a.b(), a.e(), c); }
-                else if (nm == "bubble_sort") { etl::bubble_sort(a.b(), a.e(), c); }
-                else if (nm == "exchange_sort") { etl::exchange_sort(a.b(), a.e(), c); }
-                else if (nm == "merge_sort") { etl::merge_sort(a.b(), a.e(), c); }
-                else if (nm == "nth_element") { etl::nth_element(a.b(), a.b() + k, a.e(), c); }
-                else { etl::partial_sort(a.b(), a.b() + k, a.e(), c); }
+                if (rev) { call(etl::reverse_iterator<int*>(a.e()), etl::reverse_iterator<int*>(a.b())); }
+                else if (bidi) { call(BidiIt<int>(a.b()), BidiIt<int>(a.e())); }
+                else { call(a.b(), a.e()); }
                 V r = a.vec();
+                V v0 = v;
+                if (rev) { std::reverse(r.begin(), r.end()); std::reverse(v0.begin(), v0.end()); }
                 o.tok("ok");
                 if (full || stable) { put(o, r); }
                 else if (nm == "nth_element") {
                     // [alg.nth.element]: nothing before nth is greater than anything from nth on
                     bool okp = true;
                     for (i64 i = 0; i < k && okp; ++i) { for (i64 j = k; j < static_cast<i64>(r.size()); ++j) { if (c(r[j], r[i])) { okp = false; break; } } }
-                    o.b(okp).b(is_perm(r, v));
+                    // ... and *nth is the element that a full sort would put there (up to equivalence)
+                    if (okp && k < static_cast<i64>(r.size())) {
+                        V s = v0; std::sort(s.begin(), s.end(), c);
+                        okp = !c(s[k], r[k]) && !c(r[k], s[k]);
+                    }
+                    o.b(okp).b(is_perm(r, v0));
                 } else if (nm == "partial_sort") {
                     bool okp = std::is_sorted(r.begin(), r.begin() + k, c);
                     for (i64 i = 0; i < k && okp; ++i) { for (i64 j = k; j < static_cast<i64>(r.size()); ++j) { if (c(r[j], r[i])) { okp = false; break; } } }
-                    o.b(okp).b(is_perm(r, v));
-                } else { o.b(std::is_sorted(r.begin(), r.end(), c)).b(is_perm(r, v)); }
+                    o.b(okp).b(is_perm(r, v0));
+                } else { o.b(std::is_sorted(r.begin(), r.end(), c)).b(is_perm(r, v0)); }
                 guard_tok(o, a);
             });
             if (!full) {
                 V s = v;
+                if (rev) { std::reverse(s.begin(), s.end()); }
                 ref.tok("ok");
                 if (stable) { std::stable_sort(s.begin(), s.end(), c); put(ref, s); }
                 else { ref.b(true).b(true); }
@@ -284,31 +420,210 @@ bool vh::run_case(std::string const& op, Toks& in, Out& impl, Out& ref)
             return true;
         }
     }
-    // ------------------------------------------------------------------ copying family (destination = fresh guarded buffer)
-    auto emit_dest = [&](Out& o, Buf& d, std::ptrdiff_t r) { o.tok("ok"); put_prefix(o, d.b(), r); guard_tok(o, d); };
-    if (op == "copy" || op == "move" || op == "copy_in" || op == "copy_backward" || op == "move_backward" || op == "reverse_copy") {
+    // ------------------------------------------------------------------ algorithms on reverse iterators / other wrappers
+    if (op == "reverse_rev") {
+        // etl::reverse on reverse_iterator<int*> (random-access path: uses operator< of reverse_iterator)
+        auto f = in.num(); auto n = in.num();
         V v = tov(in.list());
-        Buf s(v), d(v.size());
+        Buf a(v);
+        guarded(impl, [&](Out& o) {
+            etl::reverse(etl::reverse_iterator<int*>(a.b() + n), etl::reverse_iterator<int*>(a.b() + f));
+            o.tok("ok"); put(o, a.vec()); guard_tok(o, a);
+        });
+        V s = v; std::reverse(s.begin() + f, s.begin() + n);
+        ref.tok("ok"); put(ref, s);
+        return true;
+    }
+    if (op == "revit_cmp") {
+        // relational operators, difference, indexing of reverse_iterator<int*> at reversed positions i, j of an array of length n
+        auto n = in.num(); auto i = in.num(); auto j = in.num();
+        V v(static_cast<std::size_t>(n) + 5, 0);       // two spare cells on each side: ++/-- at the ends stay inside
+        for (std::size_t q = 0; q < v.size(); ++q) { v[q] = static_cast<int>(98 + q); }
+        int* base = v.data() + 2;
+        auto mk  = [&](i64 q) { return etl::reverse_iterator<int*>(base + (n - q)); };
+        auto mks = [&](i64 q) { return std::reverse_iterator<int*>(base + (n - q)); };
+        guarded(impl, [&](Out& o) {
+            auto x = mk(i); auto y = mk(j);
+            o.tok("ok").b(x == y).b(x != y).b(x < y).b(x <= y).b(x > y).b(x >= y).num(y - x).num((x + (j - i)).base() - base)
+                .num((y - (j - i)).base() - base).num(((j - i) + x).base() - base);
+            if (i < n) { o.num(*x).num(x[0]); } else { o.num(-1).num(-1); }
+            if (i < j) { o.num(x[j - i - 1]); } else { o.num(-1); }
+            auto z = x; z += (j - i); o.b(z == y); z -= (j - i); o.b(z == x);
+            // ++ / -- (pre and post), converting construction / assignment, make_reverse_iterator
+            auto w = x; auto w0 = w++; o.num(w0.base() - base).num(w.base() - base);
+            auto w1 = ++w; o.num(w1.base() - base).num(w.base() - base);
+            auto w2 = w--; o.num(w2.base() - base).num(w.base() - base);
+            auto w3 = --w; o.num(w3.base() - base).num(w.base() - base);
+            etl::reverse_iterator<int const*> cx(x); etl::reverse_iterator<int const*> cy; cy = y;
+            o.num(cx.base() - base).num(cy.base() - base).b(cx == x).b(cy != x).num(etl::make_reverse_iterator(base + (n - i)).base() - base);
+            if (i < n) { o.num(*x.operator->()); } else { o.num(-1); }
+        });
+        {
+            auto x = mks(i); auto y = mks(j);
+            ref.tok("ok").b(x == y).b(x != y).b(x < y).b(x <= y).b(x > y).b(x >= y).num(y - x).num((x + (j - i)).base() - base)
+                .num((y - (j - i)).base() - base).num(((j - i) + x).base() - base);
+            if (i < n) { ref.num(*x).num(x[0]); } else { ref.num(-1).num(-1); }
+            if (i < j) { ref.num(x[j - i - 1]); } else { ref.num(-1); }
+            auto z = x; z += (j - i); ref.b(z == y); z -= (j - i); ref.b(z == x);
+            auto w = x; auto w0 = w++; ref.num(w0.base() - base).num(w.base() - base);
+            auto w1 = ++w; ref.num(w1.base() - base).num(w.base() - base);
+            auto w2 = w--; ref.num(w2.base() - base).num(w.base() - base);
+            auto w3 = --w; ref.num(w3.base() - base).num(w.base() - base);
+            std::reverse_iterator<int const*> cx(x); std::reverse_iterator<int const*> cy; cy = y;
+            ref.num(cx.base() - base).num(cy.base() - base).b(cx == x).b(cy != x).num(std::make_reverse_iterator(base + (n - i)).base() - base);
+            if (i < n) { ref.num(*x.operator->()); } else { ref.num(-1); }
+        }
+        return true;
+    }
+    if (op == "iter_fn") {
+        // etl::next / prev / advance / distance per iterator category: <cat> <len> <pos> <n>
+        auto cat = in.num(); auto len = in.num(); auto pos = in.num(); auto n = in.num();
+        V v(static_cast<std::size_t>(len) + 1, 0);
+        int* base = v.data();
+        auto run = [&](Out& o, auto mk, auto unwrap) {
+            auto it = mk(base + pos);
+            o.tok("ok");
+            o.num(unwrap(etl::next(it, n)) - base);
+            if (n == 1) { o.num(unwrap(etl::next(it)) - base); } else { o.num(-1); }
+            auto a2 = it; etl::advance(a2, n); o.num(unwrap(a2) - base);
+            o.num(etl::distance(it, mk(base + pos + n)));
+        };
+        auto run_std = [&](Out& o) {
+            int* it = base + pos;
+            o.tok("ok");
+            o.num(std::next(it, n) - base);
+            if (n == 1) { o.num(std::next(it) - base); } else { o.num(-1); }
+            auto a2 = it; std::advance(a2, n); o.num(a2 - base);
+            o.num(std::distance(it, base + pos + n));
+        };
+        // bidirectional and better: negative n and prev
+        auto runb = [&](Out& o, auto mk, auto unwrap) {
+            auto it = mk(base + pos);
+            o.num(unwrap(etl::prev(it, -n)) - base);
+            if (n == -1) { o.num(unwrap(etl::prev(it)) - base); } else { o.num(-1); }
+            auto a2 = it; etl::advance(a2, n); o.num(unwrap(a2) - base);
+        };
+        auto runb_std = [&](Out& o) {
+            int* it = base + pos;
+            o.num(std::prev(it, -n) - base);
+            if (n == -1) { o.num(std::prev(it) - base); } else { o.num(-1); }
+            auto a2 = it; std::advance(a2, n); o.num(a2 - base);
+        };
+        auto idp = [](int* p) { return p; };
+        auto unp = [](int* p) { return p; };
+        auto unw = [](auto w) { return w.p; };
+        bool neg = n < 0;
+        guarded(impl, [&](Out& o) {
+            if (cat == 0) { if (neg) { o.tok("ok"); } else { run(o, idp, unp); } runb(o, idp, unp); }
+            else if (cat == 1) { run(o, [](int* p) { return InIt(p); }, unw); }
+            else if (cat == 2) { run(o, [](int* p) { return FwdIt<int>(p); }, unw); }
+            else { if (neg) { o.tok("ok"); } else { run(o, [](int* p) { return BidiIt<int>(p); }, unw); } runb(o, [](int* p) { return BidiIt<int>(p); }, unw); }
+        });
+        // reference: the same calls of namespace std on the raw pointer (positions do not depend on the category)
+        if (neg) { ref.tok("ok"); } else { run_std(ref); }
+        if (cat == 0 || cat == 3) { runb_std(ref); }
+        return true;
+    }
+    if (op == "swap_array") {
+        // _utility/swap.hpp: the overload for built-in arrays (element-wise), three elements each
+        V v1 = tov(in.list()); V v2 = tov(in.list());
+        int a[3] = {v1[0], v1[1], v1[2]}; int b[3] = {v2[0], v2[1], v2[2]};
+        int c[3] = {v1[0], v1[1], v1[2]}; int d[3] = {v2[0], v2[1], v2[2]};
+        guarded(impl, [&](Out& o) { etl::swap(a, b); o.tok("ok").num(3); o.list(a, a + 3); o.list(b, b + 3); });
+        std::swap(c, d);
+        ref.tok("ok").num(3); ref.list(c, c + 3); ref.list(d, d + 3);
+        return true;
+    }
+    if (op == "swap_ranges_fwd") {
+        V v1 = tov(in.list()); V v2 = tov(in.list());
+        Buf a(v1), b(v2);
+        guarded(impl, [&](Out& o) {
+            auto r = etl::swap_ranges(FwdIt<int>(a.b()), FwdIt<int>(a.e()), FwdIt<int>(b.b())).p - b.b();
+            o.tok("ok").num(r); put(o, a.vec()); put(o, b.vec()); guard_tok(o, a); guard_tok(o, b);
+        });
+        V s1 = v1, s2 = v2;
+        auto r = std::swap_ranges(s1.begin(), s1.end(), s2.begin()) - s2.begin();
+        ref.tok("ok").num(r); put(ref, s1); put(ref, s2);
+        return true;
+    }
+    // ------------------------------------------------------------------ overlapping copies inside ONE array
+    if (op == "copy_ov" || op == "move_ov" || op == "copy_backward_ov" || op == "move_backward_ov") {
+        // forward: <first> <last> <dest>   (dest outside [first,last));  backward: <first> <last> <dLast>  (dLast outside (first,last])
+        auto f = in.num(); auto l = in.num(); auto d = in.num();
+        V v = tov(in.list());
+        Buf a(v);
         guarded(impl, [&](Out& o) {
             std::ptrdiff_t r;
-            if (op == "copy") { r = etl::copy(s.b(), s.e(), d.b()) - d.b(); }
-            else if (op == "copy_in") { r = etl::copy(WrapIt<int, etl::input_iterator_tag>(s.b()), WrapIt<int, etl::input_iterator_tag>(s.e()), d.b()) - d.b(); }
-            else if (op == "move") { r = etl::move(s.b(), s.e(), d.b()) - d.b(); }
-            else if (op == "copy_backward") { r = d.e() - etl::copy_backward(s.b(), s.e(), d.e()); }
-            else if (op == "move_backward") { r = d.e() - etl::move_backward(s.b(), s.e(), d.e()); }
-            else { r = etl::reverse_copy(s.b(), s.e(), d.b()) - d.b(); }
-            emit_dest(o, d, r);
+            if (op == "copy_ov") { r = etl::copy(a.b() + f, a.b() + l, a.b() + d) - a.b(); }
+            else if (op == "move_ov") { r = etl::move(a.b() + f, a.b() + l, a.b() + d) - a.b(); }
+            else if (op == "copy_backward_ov") { r = etl::copy_backward(a.b() + f, a.b() + l, a.b() + d) - a.b(); }
+            else { r = etl::move_backward(a.b() + f, a.b() + l, a.b() + d) - a.b(); }
+            o.tok("ok").num(r); put(o, a.vec()); guard_tok(o, a);
+        });
+        V s = v;
+        std::ptrdiff_t r;
+        if (op == "copy_ov" || op == "move_ov") { r = std::copy(s.begin() + f, s.begin() + l, s.begin() + d) - s.begin(); }
+        else { r = std::copy_backward(s.begin() + f, s.begin() + l, s.begin() + d) - s.begin(); }
+        ref.tok("ok").num(r); put(ref, s);
+        return true;
+    }
+    // ------------------------------------------------------------------ copying family (destination = fresh guarded buffer)
+    if (op == "copy" || op == "move" || op == "copy_in" || op == "reverse_copy") {
+        V v = tov(in.list());
+        Buf s(v, SGUARD);
+        if (op == "copy_in") { sk = 1; }
+        guarded(impl, [&](Out& o) {
+            if (op == "reverse_copy") {
+                with_dest<2U | 4U>(dk, o, v.size(), [&](auto d) { return with_src<8U>(sk, s.b(), s.e(), [&](auto b, auto e) { return etl::reverse_copy(b, e, d); }); });
+            } else if (op == "move") {
+                with_dest<2U | 4U>(dk, o, v.size(), [&](auto d) { return with_src<2U | 4U | 8U>(sk, s.b(), s.e(), [&](auto b, auto e) { return etl::move(b, e, d); }); });
+            } else {
+                with_dest<2U | 4U>(dk, o, v.size(), [&](auto d) { return with_src<2U | 4U | 8U>(sk, s.b(), s.e(), [&](auto b, auto e) { return etl::copy(b, e, d); }); });
+            }
+            src_tok(o, s, v);
         });
         V out(v.size());
         if (op == "reverse_copy") { std::reverse_copy(v.begin(), v.end(), out.begin()); } else { out = v; }
         ref.tok("ok"); put_prefix(ref, out.data(), static_cast<std::ptrdiff_t>(out.size()));
         return true;
     }
+    if (op == "copy_backward" || op == "move_backward") {
+        V v = tov(in.list());
+        Buf s(v, SGUARD), d(v.size());
+        guarded(impl, [&](Out& o) {
+            std::ptrdiff_t r;
+            bool cb = op == "copy_backward";
+            if (sk == 3 && dk == 3) {
+                BidiIt<int> b(s.b()), e(s.e()), de(d.e());
+                r = d.e() - (cb ? etl::copy_backward(b, e, de) : etl::move_backward(b, e, de)).p;
+            } else if (sk == 3) {
+                BidiIt<int> b(s.b()), e(s.e());
+                r = d.e() - (cb ? etl::copy_backward(b, e, d.e()) : etl::move_backward(b, e, d.e()));
+            } else if (dk == 3) {
+                BidiIt<int> de(d.e());
+                r = d.e() - (cb ? etl::copy_backward(s.b(), s.e(), de) : etl::move_backward(s.b(), s.e(), de)).p;
+            } else {
+                r = d.e() - (cb ? etl::copy_backward(s.b(), s.e(), d.e()) : etl::move_backward(s.b(), s.e(), d.e()));
+            }
+            // the destination is filled from its end: [n - r, n)
+            o.tok("ok"); put_prefix(o, d.e() - r, r); guard_tok(o, d);
+            for (std::ptrdiff_t i = 0; i < static_cast<std::ptrdiff_t>(v.size()) - r; ++i) { if (d.b()[i] != GUARD) { o.tok("WROTE-PAST-RETURN"); break; } }
+            src_tok(o, s, v);
+        });
+        ref.tok("ok"); put_prefix(ref, v.data(), static_cast<std::ptrdiff_t>(v.size()));
+        return true;
+    }
     if (op == "copy_n") {
         auto n = in.num();
         V v = tov(in.list());
-        Buf s(v), d(v.size());
-        guarded(impl, [&](Out& o) { auto r = etl::copy_n(s.b(), n, d.b()) - d.b(); emit_dest(o, d, r); });
+        Buf s(v, SGUARD);
+        guarded(impl, [&](Out& o) {
+            with_dest<2U | 4U>(dk, o, v.size(), [&](auto d) {
+                if (sk == 1) { return etl::copy_n(InIt(s.b()), n, d); }
+                return etl::copy_n(s.b(), n, d);
+            });
+            src_tok(o, s, v);
+        });
         V out(v.size());
         auto r = std::copy_n(v.begin(), n, out.begin()) - out.begin();
         ref.tok("ok"); put_prefix(ref, out.data(), r);
@@ -317,14 +632,17 @@ bool vh::run_case(std::string const& op, Toks& in, Out& impl, Out& ref)
     if (op == "copy_if" || op == "remove_copy_if" || op == "remove_copy") {
         auto id = static_cast<int>(in.num());
         V v = tov(in.list());
-        Buf s(v), d(v.size());
+        Buf s(v, SGUARD);
         auto p = [&](int x) { return pred_of(id, x); };
         guarded(impl, [&](Out& o) {
-            std::ptrdiff_t r;
-            if (op == "copy_if") { r = etl::copy_if(s.b(), s.e(), d.b(), p) - d.b(); }
-            else if (op == "remove_copy_if") { r = etl::remove_copy_if(s.b(), s.e(), d.b(), p) - d.b(); }
-            else { r = etl::remove_copy(s.b(), s.e(), d.b(), id) - d.b(); }
-            emit_dest(o, d, r);
+            with_dest<2U | 4U>(dk, o, v.size(), [&](auto d) {
+                return with_src<2U | 4U>(sk, s.b(), s.e(), [&](auto b, auto e) {
+                    if (op == "copy_if") { return etl::copy_if(b, e, d, p); }
+                    if (op == "remove_copy_if") { return etl::remove_copy_if(b, e, d, p); }
+                    return etl::remove_copy(b, e, d, id);
+                });
+            });
+            src_tok(o, s, v);
         });
         V out(v.size());
         std::ptrdiff_t r;
@@ -336,16 +654,19 @@ bool vh::run_case(std::string const& op, Toks& in, Out& impl, Out& ref)
     }
     if (op == "fill" || op == "fill_n" || op == "generate" || op == "generate_n") {
         auto n = in.num(); auto val = static_cast<int>(in.num()); auto len = in.num();
-        Buf d(static_cast<std::size_t>(len));
         V out(static_cast<std::size_t>(len), GUARD);
         int g = val; int g2 = val;
         guarded(impl, [&](Out& o) {
-            std::ptrdiff_t r = len;
-            if (op == "fill") { etl::fill(d.b(), d.e(), val); }
-            else if (op == "fill_n") { r = etl::fill_n(d.b(), n, val) - d.b(); }
-            else if (op == "generate") { etl::generate(d.b(), d.e(), [&] { return g++; }); }
-            else { r = etl::generate_n(d.b(), n, [&] { return g++; }) - d.b(); }
-            emit_dest(o, d, r);
+            if (op == "fill" || op == "generate") {
+                Buf d(static_cast<std::size_t>(len));
+                if (op == "fill") { if (sk == 2) { etl::fill(FwdIt<int>(d.b()), FwdIt<int>(d.e()), val); } else { etl::fill(d.b(), d.e(), val); } }
+                else { if (sk == 2) { etl::generate(FwdIt<int>(d.b()), FwdIt<int>(d.e()), [&] { return g++; }); } else { etl::generate(d.b(), d.e(), [&] { return g++; }); } }
+                emit_dest(o, d, len);
+            } else if (op == "fill_n") {
+                with_dest<2U | 4U>(dk, o, static_cast<std::size_t>(len), [&](auto d) { return etl::fill_n(d, n, val); });
+            } else {
+                with_dest<2U | 4U>(dk, o, static_cast<std::size_t>(len), [&](auto d) { return etl::generate_n(d, n, [&] { return g++; }); });
+            }
         });
         std::ptrdiff_t r = len;
         if (op == "fill") { std::fill(out.begin(), out.end(), val); }
@@ -360,8 +681,9 @@ bool vh::run_case(std::string const& op, Toks& in, Out& impl, Out& ref)
         V v = tov(in.list());
         Buf a(v);
         guarded(impl, [&](Out& o) {
-            if (op == "replace_if") { etl::replace_if(a.b(), a.e(), [&](int x) { return pred_of(id, x); }, nv); }
-            else { etl::replace(a.b(), a.e(), id, nv); }
+            auto p = [&](int x) { return pred_of(id, x); };
+            if (op == "replace_if") { if (sk == 2) { etl::replace_if(FwdIt<int>(a.b()), FwdIt<int>(a.e()), p, nv); } else { etl::replace_if(a.b(), a.e(), p, nv); } }
+            else { if (sk == 2) { etl::replace(FwdIt<int>(a.b()), FwdIt<int>(a.e()), id, nv); } else { etl::replace(a.b(), a.e(), id, nv); } }
             o.tok("ok"); put(o, a.vec()); guard_tok(o, a);
         });
         V s = v;
@@ -373,31 +695,45 @@ bool vh::run_case(std::string const& op, Toks& in, Out& impl, Out& ref)
     if (op == "transform1") {
         auto id = static_cast<int>(in.num());
         V v = tov(in.list());
-        Buf s(v), d(v.size());
-        guarded(impl, [&](Out& o) { auto r = etl::transform(s.b(), s.e(), d.b(), [&](int x) { return fun1_of(id, x); }) - d.b(); emit_dest(o, d, r); });
+        Buf s(v, SGUARD);
+        auto fn = [&](int x) { return fun1_of(id, x); };
+        guarded(impl, [&](Out& o) {
+            with_dest<2U | 4U>(dk, o, v.size(), [&](auto d) { return with_src<2U | 4U>(sk, s.b(), s.e(), [&](auto b, auto e) { return etl::transform(b, e, d, fn); }); });
+            src_tok(o, s, v);
+        });
         V out(v.size());
-        auto r = std::transform(v.begin(), v.end(), out.begin(), [&](int x) { return fun1_of(id, x); }) - out.begin();
+        auto r = std::transform(v.begin(), v.end(), out.begin(), fn) - out.begin();
         ref.tok("ok"); put_prefix(ref, out.data(), r);
         return true;
     }
     if (op == "transform2") {
         auto id = static_cast<int>(in.num());
         V v1 = tov(in.list()); V v2 = tov(in.list());
-        Buf s1(v1), s2(v2), d(v1.size());
+        Buf s1(v1, SGUARD), s2(v2, SGUARD);
+        auto fn = [&](int x, int y) { return fun2_of(id, x, y); };
         guarded(impl, [&](Out& o) {
-            auto r = etl::transform(s1.b(), s1.e(), s2.b(), d.b(), [&](int x, int y) { return fun2_of(id, x, y); }) - d.b();
-            emit_dest(o, d, r);
+            with_dest<2U | 4U>(dk, o, v1.size(), [&](auto d) {
+                if (sk == 1) { return etl::transform(InIt(s1.b()), InIt(s1.e()), InIt(s2.b()), d, fn); }
+                return etl::transform(s1.b(), s1.e(), s2.b(), d, fn);
+            });
+            src_tok(o, s1, v1); src_tok(o, s2, v2);
         });
         V out(v1.size());
-        auto r = std::transform(v1.begin(), v1.end(), v2.begin(), out.begin(), [&](int x, int y) { return fun2_of(id, x, y); }) - out.begin();
+        auto r = std::transform(v1.begin(), v1.end(), v2.begin(), out.begin(), fn) - out.begin();
         ref.tok("ok"); put_prefix(ref, out.data(), r);
         return true;
     }
     if (op == "rotate_copy") {
         auto m = in.num();
         V v = tov(in.list());
-        Buf s(v), d(v.size());
-        guarded(impl, [&](Out& o) { auto r = etl::rotate_copy(s.b(), s.b() + m, s.e(), d.b()) - d.b(); emit_dest(o, d, r); });
+        Buf s(v, SGUARD);
+        guarded(impl, [&](Out& o) {
+            with_dest<2U | 4U>(dk, o, v.size(), [&](auto d) {
+                if (sk == 2) { return etl::rotate_copy(FwdIt<int>(s.b()), FwdIt<int>(s.b() + m), FwdIt<int>(s.e()), d); }
+                return etl::rotate_copy(s.b(), s.b() + m, s.e(), d);
+            });
+            src_tok(o, s, v);
+        });
         V out(v.size());
         auto r = std::rotate_copy(v.begin(), v.begin() + m, v.end(), out.begin()) - out.begin();
         ref.tok("ok"); put_prefix(ref, out.data(), r);
@@ -406,12 +742,17 @@ bool vh::run_case(std::string const& op, Toks& in, Out& impl, Out& ref)
     if (op == "unique_copy") {
         auto id = static_cast<int>(in.num());
         V v = tov(in.list());
-        Buf s(v), d(v.size());
+        Buf s(v, SGUARD);
         auto e = [&](int x, int y) { return eqv_of(id, x, y); };
         guarded(impl, [&](Out& o) {
-            std::ptrdiff_t r;
-            if (id == 1) { r = etl::unique_copy(s.b(), s.e(), d.b()) - d.b(); } else { r = etl::unique_copy(s.b(), s.e(), d.b(), e) - d.b(); }
-            emit_dest(o, d, r);
+            // etl::unique_copy reads *destination: the destination must be a forward iterator (kinds 0 and 3)
+            with_dest<8U>(dk, o, v.size(), [&](auto d) {
+                return with_src<2U | 4U>(sk, s.b(), s.e(), [&](auto b, auto en) {
+                    if (id == 1) { return etl::unique_copy(b, en, d); }
+                    return etl::unique_copy(b, en, d, e);
+                });
+            });
+            src_tok(o, s, v);
         });
         V out(v.size());
         auto r = std::unique_copy(v.begin(), v.end(), out.begin(), e) - out.begin();
@@ -421,11 +762,27 @@ bool vh::run_case(std::string const& op, Toks& in, Out& impl, Out& ref)
     if (op == "partition_copy") {
         auto id = static_cast<int>(in.num());
         V v = tov(in.list());
-        Buf s(v), d1(v.size()), d2(v.size());
+        Buf s(v, SGUARD), d1(v.size()), d2(v.size());
         auto p = [&](int x) { return pred_of(id, x); };
         guarded(impl, [&](Out& o) {
-            auto r = etl::partition_copy(s.b(), s.e(), d1.b(), d2.b(), p);
-            o.tok("ok"); put_prefix(o, d1.b(), r.first - d1.b()); put_prefix(o, d2.b(), r.second - d2.b()); guard_tok(o, d1); guard_tok(o, d2);
+            o.tok("ok");
+            if (dk == 2) {
+                SVec a1; SVec a2;
+                (void)with_src<2U | 4U>(sk, s.b(), s.e(), [&](auto b, auto e) { (void)etl::partition_copy(b, e, etl::back_inserter(a1), etl::back_inserter(a2), p); return 0; });
+                o.num(static_cast<i64>(a1.size())); for (auto x : a1) { o.num(x); }
+                o.num(static_cast<i64>(a2.size())); for (auto x : a2) { o.num(x); }
+            } else {
+                std::ptrdiff_t r1 = 0;
+                std::ptrdiff_t r2 = 0;
+                (void)with_src<2U | 4U>(sk, s.b(), s.e(), [&](auto b, auto e) {
+                    if (dk == 1) { auto r = etl::partition_copy(b, e, OutW{d1.b()}, OutW{d2.b()}, p); r1 = r.first.p - d1.b(); r2 = r.second.p - d2.b(); }
+                    else { auto r = etl::partition_copy(b, e, d1.b(), d2.b(), p); r1 = r.first - d1.b(); r2 = r.second - d2.b(); }
+                    return 0;
+                });
+                put_prefix(o, d1.b(), r1); put_prefix(o, d2.b(), r2); guard_tok(o, d1); guard_tok(o, d2);
+                if (!d1.tail_untouched(r1) || !d2.tail_untouched(r2)) { o.tok("WROTE-PAST-RETURN"); }
+            }
+            src_tok(o, s, v);
         });
         V o1(v.size()), o2(v.size());
         auto r = std::partition_copy(v.begin(), v.end(), o1.begin(), o2.begin(), p);
